@@ -46,7 +46,7 @@ func (a vcliAddr) String() string  { return string(a) }
 
 // vcliConn is the client's end of the pipe (a net.Conn). The server end has no goroutine:
 // the harness takes the bytes the client wrote and appends the bytes the client will read.
-// Both buffers are unbounded, so writes never block.
+// Both buffers are unbounded, so writes never block unless the script holds them (holdWrites).
 type vcliConn struct {
 	mu        sync.Mutex
 	cond      *sync.Cond
@@ -58,6 +58,8 @@ type vcliConn struct {
 	discarded int64
 	s2cTotal  int64
 	readMax   int // >0: a client Read returns at most this many bytes (fragmentation)
+	hold      bool // client Writes block (a socket whose send buffer is full) until released
+	heldOnce  bool // a Write has blocked since hold was set
 	cc        atomic.Pointer[ClientConn]
 }
 
@@ -90,6 +92,10 @@ func (c *vcliConn) Read(p []byte) (int, error) {
 func (c *vcliConn) Write(p []byte) (int, error) {
 	c.mu.Lock()
 	defer c.mu.Unlock()
+	for c.hold && !c.cliClosed && !c.srvClosed {
+		c.heldOnce = true
+		c.cond.Wait()
+	}
 	if c.cliClosed {
 		return 0, net.ErrClosed
 	}
@@ -149,6 +155,24 @@ func (c *vcliConn) clientClosed() bool {
 	c.mu.Lock()
 	defer c.mu.Unlock()
 	return c.cliClosed
+}
+
+// holdWrites(true) makes client Writes block until holdWrites(false); it reports whether a
+// Write was blocked while the hold was on.
+func (c *vcliConn) holdWrites(on bool) (blocked bool) {
+	c.mu.Lock()
+	defer c.mu.Unlock()
+	blocked = c.heldOnce
+	c.hold = on
+	c.heldOnce = false
+	c.cond.Broadcast()
+	return blocked
+}
+
+func (c *vcliConn) writeBlocked() bool {
+	c.mu.Lock()
+	defer c.mu.Unlock()
+	return c.heldOnce
 }
 
 func (c *vcliConn) setReadMax(n int) {
